@@ -140,6 +140,9 @@ Definition resolve_name (scene_names : list string) (given : option string) : ca
   | None => match scene_names with [n] => Acts n | _ => CallRaises end
   end.
 Definition trim_control_ok (controls : list string) (pitch_control : string) : bool := existsb (String.eqb pitch_control) controls.
+(* output files (distributions, export_stl, export_vtk): filename.endswith(ext) *)
+Fixpoint ends_with (ext filename : string) : bool :=
+  String.eqb ext filename || match filename with EmptyString => false | String _ r => ends_with ext r end.
+(* input files and run keys: the code tests [ext in filename] *)
 Fixpoint extension_ok (ext filename : string) : bool :=
-  (* the code tests [ext in filename] *)
   String.prefix ext filename || match filename with EmptyString => false | String _ r => extension_ok ext r end.
